@@ -255,8 +255,8 @@ Definition known_triple (t : triple) : bool :=
   let p := fst (fst t) in let site := snd (fst t) in let c := snd t in
   leqb p k_between || leqb c k_between                                   (* F2 *)
   || mem c dishonest_templates                                            (* F5 *)
-  || leqb c k_regex                                                       (* F34 *)
-  || (mem p cmp4 && mem c eq2)                                            (* F32 *)
+  || leqb c k_regex                                                       (* C02-N3 *)
+  || (mem p cmp4 && mem c eq2)                                            (* C02-N2 *)
   || (Nat.eqb site 1 && ((mem p cmp4 && mem c cmp4) || (mem p eq2 && mem c eq2)))   (* F4 *)
   || (leqb p k_mul && Nat.eqb site 1 && (leqb c k_mod || leqb c k_div_f)). (* F30 *)
 
